@@ -39,7 +39,7 @@ SHAPES = {
 }
 
 
-def build(sym, shape, label_name, layered, paths_for, n):
+def build(sym, shape, label_name, layered, paths_for, n, share=False):
     ci = ComposeInfo()
     ci.release.name = sym.str("r_name", n)
     ci.release.short = sym.str("r_short", n)
@@ -82,6 +82,19 @@ def build(sym, shape, label_name, layered, paths_for, n):
             ci.variants.add(v)
         else:
             objs[parent].add(v)
+    if share:
+        # the caller uses one dict object for a path category of two variants whose arch sets differ (one common ISO directory):
+        # each variant is written with the entries for its own arches, and nobody's entries get lost
+        spec = SHAPES[shape]
+        big_ = spec[0]
+        for x in spec:
+            if len(x[3]) > len(big_[3]):
+                big_ = x
+        small = [x for x in spec if set(x[3]) != set(big_[3])]
+        if small:
+            shared = dict((a, sym.str("shared_" + a, 3, minlen=1)) for a in big_[3])
+            objs[big_[1]].paths.isos = shared
+            objs[small[0][1]].paths.isos = shared
     return ci, objs
 
 
@@ -92,13 +105,15 @@ def release_facts(sym, tag, got, want, lowered_type):
     sym.check(tag + ".type", got.type == lowered_type)
 
 
-def roundtrip(sym, shape, label_name, layered, paths_for, n, history=False):
+def roundtrip(sym, shape, label_name, layered, paths_for, n, history=False, share=False):
     """history: another compose description was written and read by other objects first, and the text that is checked was already
     loaded once into an object that the caller then edited in place"""
     if history:
         histories.warm("composeinfo")
     try:
-        ci, objs = build(sym, shape, label_name, layered, paths_for, n)
+        ci, objs = build(sym, shape, label_name, layered, paths_for, n, share)
+        # what the caller put in, copied before anything is written (the oracle must not share objects with the library)
+        put_in = dict((uid, dict((field, dict(getattr(v.paths, field))) for field in PATH_FIELDS)) for uid, v in objs.items())
         text = ci.dumps()
     except (ValueError, TypeError):
         # the library does not agree to build / write this description (C06 decides whether that is right)
@@ -154,7 +169,7 @@ def roundtrip(sym, shape, label_name, layered, paths_for, n, history=False):
             sym.check(tag + ".release.is_layered", got.release.is_layered == True)    # noqa: E712
         # paths: every category, every arch of the variant; empty values and foreign arches are not stored
         for field in PATH_FIELDS:
-            wantmap = getattr(want.paths, field)
+            wantmap = put_in[uid][field]
             gotmap = getattr(got.paths, field)
             for arch in sorted(set(arches) | set(wantmap.keys())):
                 w = wantmap.get(arch)
@@ -209,7 +224,7 @@ def jobs(tier, seed):
         for ci, (lab, lay) in enumerate(combos):
             out.append({"harness": "roundtrip", "params": {"shape": shape, "label_name": lab, "layered": lay,
                                                           "paths_for": _paths(shape, k + si + ci), "n": 4 if big else 3,
-                                                          "history": (si + ci + seed) % 2 == 1},
+                                                          "history": (si + ci + seed) % 2 == 1, "share": (si + ci + seed) % 3 == 0},
                         "validate_every": 40})
     return out
 
